@@ -1065,6 +1065,59 @@ func c16Check(c c16Case, s *c16State, res *c16Result, par bool) {
 			failf("%s", msg)
 		}
 	}
+	// 5b. an explicit Flush IS a trigger ("whichever trigger flushes it: ... an explicit Flush/Wait"): a task
+	// that sat in the container during a whole Flush call must have been taken by it. Judged only where the
+	// history PROVES that the task was still in the container when the Flush returned: its Add had returned
+	// before the Flush was called and its batch was taken strictly after the Flush had returned, i.e.
+	// (a) the batch was executed by a harness goroutine, and every harness Flush/Wait in progress at the
+	// start of that callback had been called after the Flush returned, or (b) bubbles only: it is a tick
+	// flush of the background flusher (below the threshold) that started at a LATER virtual instant (between
+	// RemoveAll and the callback's start there is no durable block, so no virtual time passes).
+	// A batch that started before the Flush returned, threshold batches in hand-over and batches taken by
+	// overlapping calls are not judged.
+	var flushes []*c16Op // returned explicit Flush calls, ordered by the logical instant of their call
+	for i := range s.ops {
+		if f := &s.ops[i]; f.kind == "flush" && f.call != 0 && f.ret != 0 && !f.panicked {
+			flushes = append(flushes, f)
+		}
+	}
+	sort.Slice(flushes, func(i, j int) bool { return flushes[i].call < flushes[j].call })
+	for id, o := range added {
+		if o.ret == 0 || len(flushes) == 0 {
+			continue
+		}
+		b := where[id]
+		// the Flush calls that lie entirely between Add's return and the start of the task's batch
+		for _, f := range flushes[sort.Search(len(flushes), func(i int) bool { return flushes[i].call > o.ret }):] {
+			if f.call > b.start {
+				break
+			}
+			cl["flush-trigger: task pending at an explicit Flush"] = true
+			if b.start < f.ret {
+				continue
+			}
+			late, how := false, ""
+			if b.harness {
+				cand, allLate := 0, true
+				for j := range s.ops {
+					h := &s.ops[j]
+					if (h.kind == "flush" || h.kind == "wait") && h.call != 0 && h.call < b.start && (h.ret == 0 || h.ret > b.start) {
+						cand++
+						if h.call < f.ret {
+							allLate = false
+						}
+					}
+				}
+				late, how = cand > 0 && allLate, "by a Flush/Wait that was called after this Flush had returned"
+			} else if !par && !c.atThreshold(b.ids) && b.tstart > f.tret {
+				late, how = true, "by a later tick of the background flusher"
+			}
+			if late && res.fail == "" {
+				failf("Flush (ev %d, g%d) called at %v returned at %v without flushing task %d (its Add had returned at %v): the task was taken out of the container only later, %s (batch %v started at %v)%s",
+					f.ev, f.g, f.tcall, f.tret, id, o.tret, how, b.ids, b.tstart, c16History(s))
+			}
+		}
+	}
 	if s.liveFail != "" {
 		failf("%s", s.liveFail)
 	}
